@@ -3,6 +3,7 @@ package props
 import (
 	"bytes"
 	"fmt"
+	"time"
 
 	"pgregory.net/rapid"
 
@@ -98,27 +99,41 @@ func checkC10(c WFaultCase, o *Obs) error {
 	return nil
 }
 
-// checkDeadlines verifies that every transport Write is preceded, within the
-// same API call, by a SetWriteDeadline carrying the deadline in force.
+// checkDeadlines verifies that every transport Write happens while the
+// transport's write deadline - as left by the most recent SetWriteDeadline /
+// SetDeadline call, whenever it was made - equals the deadline in force for the
+// API call that writes the frame (the connection's write deadline, or the
+// argument of WriteControl).  A connection that skips redundant deadline calls
+// is fine; one that leaves another frame's deadline armed is not.
 func checkDeadlines(tw *WTrace, log []xport.Op) error {
-	for _, cl := range tw.Calls {
-		var last *xport.Op
-		for i := cl.OpsBefore; i < cl.OpsAfter && i < len(log); i++ {
-			op := &log[i]
-			switch op.Kind {
-			case xport.OpSetWriteDeadline:
-				last = op
-			case xport.OpWrite:
-				if last == nil {
-					return fmt.Errorf("step %d %s: a frame was written without setting the write deadline first (the transport keeps whatever deadline an earlier frame armed)", cl.Step, cl.API)
-				}
-				if !last.Deadline.Equal(cl.Deadline) {
-					return fmt.Errorf("step %d %s: frame written under deadline %v, want %v", cl.Step, cl.API, last.Deadline, cl.Deadline)
-				}
+	var armed time.Time
+	ci := 0
+	for i := range log {
+		op := &log[i]
+		for ci < len(tw.Calls) && i >= tw.Calls[ci].OpsAfter {
+			ci++
+		}
+		switch op.Kind {
+		case xport.OpSetWriteDeadline, xport.OpSetDeadline:
+			armed = op.Deadline
+		case xport.OpWrite:
+			if ci >= len(tw.Calls) || i < tw.Calls[ci].OpsBefore {
+				continue
+			}
+			cl := tw.Calls[ci]
+			if !armed.Equal(cl.Deadline) {
+				return fmt.Errorf("step %d %s: a frame was written while the transport's write deadline was %s, want %s (the deadline last given to SetWriteDeadline, or WriteControl's argument)", cl.Step, cl.API, fmtDeadline(armed, tw.Base), fmtDeadline(cl.Deadline, tw.Base))
 			}
 		}
 	}
 	return nil
+}
+
+func fmtDeadline(t, base time.Time) string {
+	if t.IsZero() {
+		return "none"
+	}
+	return "base+" + t.Sub(base).Round(time.Second).String()
 }
 
 func runWFault(c WFaultCase, k int, kind string, wire0 []byte, o *Obs) error {
